@@ -402,7 +402,7 @@ func c14Cases(thorough bool) []c14Case {
 
 func init() {
 	vRegister(&vCheck{
-		id: "C14", level: "exploration", flavour: "vtime",
+		id: "C14", level: "exploration", flavour: "vtime", also: []string{"C14.conc"},
 		shards: func(string) int { return 16 },
 		rule:   "complete product: NFSv3 procedures 0..23 and MOUNT procedures 0..6 (v3 and v1), unknown programs/versions x argument shapes {well-formed for every (directory-slot, object-slot) handle kind in {root,dir,file,symlink,stale}^2 and 7 name kinds, READ and WRITE also with a 70000-byte transfer (the per-operation rate-limit branch); every byte-prefix of the well-formed encoding; every 32-bit word replaced by 0/1/0xFFFFFFFF (thorough adds 2/8/0x80000000)} x server states {normal, read-only, policy drain (policy write lock held), per-operation rate limit exhausted, connection-level rate limit exhausted (through the real connection loop), operation timeouts expired}; each case runs on a fresh instance; the reply must parse as an RFC 1831 reply echoing the xid and its body must decode exactly as the RFC 1813 result for (procedure, status) with the status a member of nfsstat3 / mountstat3. Distinct non-trivial = distinct (state, procedure, shape).",
 		assumptions: []string{"MOUNT v1 result shapes are explored (no crash, RPC envelope judged) but not judged against MOUNT v3 shapes",
